@@ -1267,7 +1267,7 @@ fn main() {
     }
     // 64-player legacy: offset x number of clients in the packet (slot 63, 64, 65 and beyond)
     for off in [-1i64, 0, 1, 22, 23, 24, 39, 40, 41, 47, 48, 61, 62, 63, 64, 65, 66, 100, 65535, i32::MAX as i64 - 1, i32::MAX as i64] {
-        for ncl in [0usize, 1, 2, 3, 24, 25, 26] {
+        for ncl in [0usize, 1, 2, 3, 24, 25, 26, 31, 32, 33, 40, 41, 62, 63, 64, 65, 66, 100] {
             let mut h = plain_hdr(64, 64);
             h.np = I::V(0);
             h.mp = I::V(64);
@@ -1402,7 +1402,9 @@ fn main() {
     let extra = if th { 3 } else { 2 };
     let shapes: Vec<Vec<usize>> = vec![vec![3], vec![2, 1], vec![1, 2], vec![24, 24, 16], vec![3, 3, 3], vec![1, 1, 1], vec![2, 1, 3, 1], vec![24, 24, 15, 1], vec![1, 1, 1, 1],
         // a part without clients (an empty `more` packet / an empty mask), the main part without clients
-        vec![2, 0, 1], vec![0, 3]];
+        vec![2, 0, 1], vec![0, 3],
+        // one packet filling all 64 slots, and packets ending exactly at / next to slot 63
+        vec![64], vec![63, 1], vec![1, 63], vec![32, 32], vec![40, 23]];
     for ex in [false, true] {
         for sh in &shapes {
             let reps = 1;
@@ -1413,7 +1415,7 @@ fn main() {
             }
         }
     }
-    o.exhaustive("merge: every sequence (all permutations x all duplication patterns, covering or not) over the parts of 22 multi-part infos with 1..4 parts, up to length parts+2 (thorough: +3)");
+    o.exhaustive("merge: every sequence (all permutations x all duplication patterns, covering or not) over the parts of 32 multi-part infos with 1..4 parts, up to length parts+2 (thorough: +3)");
     // the documented test vector of the crate (3 parts), all sequences up to length 5
     {
         let p0 = b"86536\0version\0name\0map\x006277493\x00627272\0gametype\x0035247\x003\x006\x009\x0012\0\0player8\0clan8\x008\x0088\x001\0\0player3\0clan3\x003\x0033\x001\0\0player1\0clan1\x001\x0011\x000\0\0".to_vec();
